@@ -172,6 +172,17 @@ Definition k3_objs (o1 o2 : objs) : Prop :=
   (forall k1 k2 a b, In (k1, a) (o_vsrs o1) -> In (k2, b) (o_vsrs o2) -> meta_eq (r_meta a) (r_meta b) = true -> a = b) /\
   (forall k1 k2 a b, In (k1, a) (o_tss o1) -> In (k2, b) (o_tss o2) -> meta_eq (t_meta a) (t_meta b) = true -> a = b).
 
+(* with the cert-manager conversion switched on: the routes converted from challenge Ingresses carry namespace, name
+   and generation only, so for them "same meta means same route" has to be assumed about the Ingresses they come
+   from; and a stored VirtualServerRoute has a UID, which a converted one has not *)
+Definition cm_objs (c : cfg) (o1 o2 : objs) : Prop :=
+  cert_manager c = false \/
+  ((forall k r, In (k, r) (o_vsrs o1) -> m_uid (r_meta r) <> "") /\ (forall k r, In (k, r) (o_vsrs o2) -> m_uid (r_meta r) <> "") /\
+   (forall k1 k2 a b, In (k1, a) (o_ings o1) -> In (k2, b) (o_ings o2) ->
+      meta_eq (r_meta (challenge_vsr a)) (r_meta (challenge_vsr b)) = true -> challenge_vsr a = challenge_vsr b)).
+
+Definition kc (c : cfg) (o1 o2 : objs) : Prop := k3_objs o1 o2 /\ cm_objs c o1 o2.
+
 Lemma all2_map_eq {A B} (g : A -> B) (f : B -> B -> bool) : forall l1 l2,
   all2 (fun x y => f (g x) (g y)) l1 l2 = true ->
   (forall x y, In x l1 -> In y l2 -> f (g x) (g y) = true -> g x = g y) ->
@@ -192,14 +203,9 @@ Qed.
 Lemma build_minions_ext is1 is2 h : minions_of is1 h = minions_of is2 h -> build_minions is1 h = build_minions is2 h.
 Proof. intros E. unfold build_minions. rewrite E. reflexivity. Qed.
 
-Section TwoBuilds.
-  Variables (c : cfg) (o1 o2 : objs).
+Section Shape.
+  Variables (c : cfg).
   Hypothesis Hcm : cert_manager c = false.
-  Hypothesis Hok1 : objs_ok o1.
-  Hypothesis Hok2 : objs_ok o2.
-  Hypothesis K : k3_objs o1 o2.
-  Let B1 := build c (o_ings o1) (o_vss o1) (o_vsrs o1) (o_tss o1) (o_gc o1).
-  Let B2 := build c (o_ings o2) (o_vss o2) (o_vsrs o2) (o_tss o2) (o_gc o2).
 
   (* the shape of a resource that buildHostsAndResources returns *)
   Lemma res_shape (o : objs) k r : lookup k (b_res (build c (o_ings o) (o_vss o) (o_vsrs o) (o_tss o) (o_gc o))) = Some r ->
@@ -241,6 +247,55 @@ Section TwoBuilds.
     intros Hx. apply vsrs_exact in Hx. destruct Hx as (p & q & _ & _ & Hl & _). apply lookup_In in Hl. eauto.
   Qed.
 
+End Shape.
+
+(* the routes of a VirtualServer resource in general: the referenced stored routes, then the converted challenge
+   Ingresses of its host *)
+Lemma res_shape_g c (o : objs) k r : lookup k (b_res (build c (o_ings o) (o_vss o) (o_vsrs o) (o_tss o) (o_gc o))) = Some r ->
+  match r with
+  | RIng ic => (exists k0, In (k0, ic_ing ic) (o_ings o)) /\ ic_master ic = is_master (ic_ing ic) /\
+               ic_minions ic = (if is_master (ic_ing ic) then fst (build_minions (o_ings o) (host0 (ic_ing ic))) else [])
+  | RVS vc => (exists k0, In (k0, vc_vs vc) (o_vss o)) /\
+              vc_vsrs vc = fst (build_vsrs (o_vsrs o) (vc_vs vc) (v_routes (vc_vs vc))) +++
+                           filter (fun r0 => String.eqb (v_host (vc_vs vc)) (r_host r0)) (challenge_vsrs c (o_vss o) (o_ings o))
+  | RTS tc => exists k0, In (k0, tc_ts tc) (o_tss o)
+  end.
+Proof.
+  unfold build. destruct (run_claims host_warning [] (all_claims c (o_ings o) (o_vss o) (o_tss o))) as [hs claim_ws].
+  cbn [b_res]. intros Hl. apply of_list_lookup_in in Hl.
+  apply in_app_or in Hl. destruct Hl as [H|H]; [|apply in_app_or in H; destruct H as [H|H]].
+  - apply in_filter_map in H. destruct H as ([k0 i] & Hi & Hf). cbn [snd] in Hf.
+    destruct (ing_claims_hosts c (o_vss o) i); [|discriminate].
+    destruct (is_master i) eqn:Hm.
+    + destruct (build_minions (o_ings o) (host0 i)) as [mins cw] eqn:Hb. inversion Hf; subst. cbn [ic_ing ic_master ic_minions].
+      rewrite Hm. split; [exists k0; exact Hi|]. split; [reflexivity|]. rewrite Hb. reflexivity.
+    + inversion Hf; subst. cbn [ic_ing ic_master ic_minions]. rewrite Hm. split; [exists k0; exact Hi|]. auto.
+  - apply in_map_iff in H. destruct H as ([k0 v] & Hf & Hv). cbn [snd] in Hf.
+    destruct (build_vsrs (o_vsrs o) v (v_routes v)) as [rl w] eqn:Hb.
+    destruct (build_vs_cfg_proj (o_gc o) v (rl +++ filter (fun r0 => String.eqb (v_host v) (r_host r0)) (challenge_vsrs c (o_vss o) (o_ings o))) w) as [P1 P2].
+    inversion Hf; subst. cbn [vc_vs vc_vsrs]. rewrite P1, P2. split; [exists k0; exact Hv|]. rewrite Hb. reflexivity.
+  - destruct (tls_passthrough c); [|destruct H].
+    apply in_filter_map in H. destruct H as ([k0 t] & Ht & Hf). cbn [snd] in Hf.
+    destruct (is_passthrough t); inversion Hf; subst. exists k0. exact Ht.
+Qed.
+
+Lemma challenge_in c vss is_ x : In x (challenge_vsrs c vss is_) -> cert_manager c = true /\ exists k i, In (k, i) is_ /\ x = challenge_vsr i.
+Proof.
+  unfold challenge_vsrs. intros H. apply in_filter_map in H. destruct H as ([k i] & Hi & Hf). cbn [snd] in Hf.
+  destruct (negb (is_minion i) && converted c vss i) eqn:E; [|discriminate]. inversion Hf; subst.
+  apply andb_true_iff in E. destruct E as [_ E]. unfold converted in E. apply andb_true_iff in E. destruct E as [E _]. apply andb_true_iff in E. destruct E as [E _].
+  split; [exact E|eauto].
+Qed.
+
+Section TwoBuilds.
+  Variables (c : cfg) (o1 o2 : objs).
+  Hypothesis Hok1 : objs_ok o1.
+  Hypothesis Hok2 : objs_ok o2.
+  Hypothesis KC : kc c o1 o2.
+  Let K := proj1 KC.
+  Let B1 := build c (o_ings o1) (o_vss o1) (o_vsrs o1) (o_tss o1) (o_gc o1).
+  Let B2 := build c (o_ings o2) (o_vss o2) (o_vsrs o2) (o_tss o2) (o_gc o2).
+
   (* IsEqual between a resource of the old build and one of the new build means equal attributes, except for
      the listener binding of a VirtualServer, which the diff compares separately *)
   Lemma is_equal_attrs k1 k2 ra rb :
@@ -251,7 +306,7 @@ Section TwoBuilds.
     end.
   Proof.
     intros L1 L2 He. destruct K as (Ki & Kv & Kr & Kt).
-    pose proof (res_shape o1 _ _ L1) as S1. pose proof (res_shape o2 _ _ L2) as S2.
+    pose proof (res_shape_g c o1 _ _ L1) as S1. pose proof (res_shape_g c o2 _ _ L2) as S2.
     destruct ra as [x|x|x], rb as [y|y|y]; try discriminate He.
     - destruct S1 as [(ka & Ia) [Ma Na]]. destruct S2 as [(kb & Ib) [Mb Nb]].
       pose proof (is_equal_valid_hosts x y He) as Hvh.
@@ -272,8 +327,20 @@ Section TwoBuilds.
       rewrite <- (map_id (vc_vsrs x)), <- (map_id (vc_vsrs y)).
       apply (all2_map_eq (fun r : vsroute => r) (fun a b => meta_eq (r_meta a) (r_meta b))); [exact Hrs|].
       intros m n Hm Hn Hmn. rewrite Na in Hm. rewrite Nb in Hn.
-      destruct (vsrs_stored _ _ _ Hm) as (k3 & I3). destruct (vsrs_stored _ _ _ Hn) as (k4 & I4).
-      exact (Kr _ _ _ _ I3 I4 Hmn).
+      apply in_app_or in Hm. apply in_app_or in Hn.
+      assert (Huid : meta_eq (r_meta m) (r_meta n) = true -> m_uid (r_meta m) = m_uid (r_meta n)).
+      { unfold meta_eq. intros E. apply andb_true_iff in E. destruct E as [E _]. apply andb_true_iff in E. destruct E as [_ E]. apply String.eqb_eq in E. exact E. }
+      destruct Hm as [Hm|Hm], Hn as [Hn|Hn].
+      + destruct (vsrs_stored _ _ _ Hm) as (k3 & I3). destruct (vsrs_stored _ _ _ Hn) as (k4 & I4). exact (Kr _ _ _ _ I3 I4 Hmn).
+      + exfalso. apply filter_In in Hn. destruct Hn as [Hn _]. destruct (challenge_in _ _ _ _ Hn) as (Hct & kk & ii & _ & ->).
+        destruct (proj2 KC) as [Hoff|(U1 & _ & _)]; [congruence|].
+        destruct (vsrs_stored _ _ _ Hm) as (k3 & I3). apply (U1 _ _ I3). rewrite (Huid Hmn). reflexivity.
+      + exfalso. apply filter_In in Hm. destruct Hm as [Hm _]. destruct (challenge_in _ _ _ _ Hm) as (Hct & kk & ii & _ & ->).
+        destruct (proj2 KC) as [Hoff|(_ & U2 & _)]; [congruence|].
+        destruct (vsrs_stored _ _ _ Hn) as (k4 & I4). apply (U2 _ _ I4). rewrite <- (Huid Hmn). reflexivity.
+      + apply filter_In in Hm. destruct Hm as [Hm _]. apply filter_In in Hn. destruct Hn as [Hn _].
+        destruct (challenge_in _ _ _ _ Hm) as (Hct & ka' & ia & Iia & ->). destruct (challenge_in _ _ _ _ Hn) as (_ & kb' & ib & Iib & ->).
+        destruct (proj2 KC) as [Hoff|(_ & _ & CH)]; [congruence|]. exact (CH _ _ _ _ Iia Iib Hmn).
     - destruct S1 as (ka & Ia). destruct S2 as (kb & Ib).
       cbn [is_equal] in He. apply andb_true_iff in He. destruct He as [He H6]. apply andb_true_iff in He. destruct He as [He H4].
       apply andb_true_iff in He. destruct He as [Hmeta Hp].
@@ -322,19 +389,19 @@ Definition key_val (H : smap resource) (k : string) (r : resource) : Prop := exi
 
 (* the same key at the same place in the host maps of two consecutive states carries the same attributes *)
 Lemma same_place_attrs c o1 o2 k :
-  cert_manager c = false -> objs_ok o1 -> objs_ok o2 -> k3_objs o1 o2 ->
+  objs_ok o1 -> objs_ok o2 -> kc c o1 o2 ->
   same_place (hosts_of_objs c o1) (hosts_of_objs c o2) k ->
   forall r1, key_val (hosts_of_objs c o1) k r1 ->
   exists r2, key_val (hosts_of_objs c o2) k r2 /\ attrs r1 = attrs r2.
 Proof.
-  intros Hcm Hok1 Hok2 K (h & o & n & Ho & Hn & Hko & Hkn & Hnu) r1 (h1 & Hr1 & Hk1).
+  intros Hok1 Hok2 KC (h & o & n & Ho & Hn & Hko & Hkn & Hnu) r1 (h1 & Hr1 & Hk1).
   pose proof (coherent_hosts_of_objs c o1 Hok1) as CO. pose proof (coherent_hosts_of_objs c o2 Hok2) as CN.
   assert (r1 = o) by (apply (coh_same _ CO h1 h r1 o Hr1 Ho); congruence). subst r1.
   pose proof (not_updated_equal _ _ h o n (coh_wf _ CN) Ho Hn Hnu) as Heq.
   exists n. split; [exists h; auto|].
   unfold hosts_of_objs in Ho, Hn.
   pose proof (b_hosts_res _ _ _ _ _ _ _ _ Ho) as L1. pose proof (b_hosts_res _ _ _ _ _ _ _ _ Hn) as L2.
-  pose proof (is_equal_attrs c o1 o2 Hcm K _ _ o n L1 L2 Heq) as Ha.
+  pose proof (is_equal_attrs c o1 o2 KC _ _ o n L1 L2 Heq) as Ha.
   destruct o as [x|x|x], n as [y|y|y]; try discriminate Heq; try exact Ha.
   destruct Ha as [Ev Er].
   fold (hosts_of_objs c o1) in Ho. fold (hosts_of_objs c o2) in Hn.
@@ -490,10 +557,9 @@ Qed.
 
 Section Step.
   Variables (c : cfg).
-  Hypothesis Hcm : cert_manager c = false.
 
   (* hosts part of a batch: what it says about one key *)
-  Lemma hosts_part s1 o : hosts s1 = hosts_of_objs c o -> objs_ok o -> objs_ok (objs_of_state s1) -> k3_objs o (objs_of_state s1) ->
+  Lemma hosts_part s1 o : hosts s1 = hosts_of_objs c o -> objs_ok o -> objs_ok (objs_of_state s1) -> kc c o (objs_of_state s1) ->
     let cs := snd (fst (rebuild_hosts c s1)) in
     (forall k r, upd_res k cs None = Some r -> key_val (hosts_of_objs c (objs_of_state s1)) k r) /\
     (forall k r, upd_res k cs None = None -> has_del k cs = false -> key_val (hosts_of_objs c o) k r ->
@@ -511,11 +577,11 @@ Section Step.
       unfold cs in Hu. rewrite rebuild_hosts_batch in Hu. fold R in Hu. rewrite Hu in Hv. destruct Hv as (h & Hl & Hkk). exists h. auto.
     - intros k r Hu Hd Hkv. pose proof (host_batch_values (hosts s1) _ R k CO CN Hk Hres) as Hv. cbn zeta in Hv.
       unfold cs in Hu, Hd. rewrite rebuild_hosts_batch in Hu, Hd. fold R in Hu, Hd. rewrite Hu in Hv.
-      rewrite Hh in Hv. apply (same_place_attrs c o (objs_of_state s1) k Hcm Hok Hok1 K); [|exact Hkv].
+      rewrite Hh in Hv. apply (same_place_attrs c o (objs_of_state s1) k Hok Hok1 K); [|exact Hkv].
       apply Hv; [rewrite <- Hh; exact Hd|apply key_val_in with r; exact Hkv].
   Qed.
 
-  Lemma listeners_part s1 o : lhosts s1 = lhosts_of_objs o -> objs_ok o -> objs_ok (objs_of_state s1) -> k3_objs o (objs_of_state s1) ->
+  Lemma listeners_part s1 o : lhosts s1 = lhosts_of_objs o -> objs_ok o -> objs_ok (objs_of_state s1) -> kc c o (objs_of_state s1) ->
     let cs := snd (fst (rebuild_listeners s1)) in
     (forall k r, upd_res k cs None = Some r -> key_val (smap_map RTS (lhosts_of_objs (objs_of_state s1))) k r) /\
     (forall k r, upd_res k cs None = None -> has_del k cs = false -> key_val (smap_map RTS (lhosts_of_objs o)) k r ->
@@ -529,7 +595,7 @@ Section Step.
       unfold cs in Hu. rewrite rebuild_listeners_batch in Hu. rewrite Hu in Hv. destruct Hv as (h & Hlk & Hkk). exists h. auto.
     - intros k r Hu Hd Hkv. pose proof (squash_batch_values _ _ k CO CN) as Hv. cbn zeta in Hv.
       unfold cs in Hu, Hd. rewrite rebuild_listeners_batch in Hu, Hd. rewrite Hu in Hv. rewrite Hl in Hv, Hd.
-      apply (same_place_attrs_l o (objs_of_state s1) k Hok Hok1 K); [|exact Hkv].
+      apply (same_place_attrs_l o (objs_of_state s1) k Hok Hok1 (proj1 K)); [|exact Hkv].
       apply Hv; [exact Hd|apply key_val_in with r; exact Hkv].
   Qed.
 End Step.
@@ -539,10 +605,9 @@ End Step.
 
 Section Step.
   Variables (c : cfg).
-  Hypothesis Hcm : cert_manager c = false.
 
   Lemma vals_rebuild_hosts s1 o sh cs :
-    hosts s1 = hosts_of_objs c o -> objs_ok o -> objs_ok (objs_of_state s1) -> k3_objs o (objs_of_state s1) ->
+    hosts s1 = hosts_of_objs c o -> objs_ok o -> objs_ok (objs_of_state s1) -> kc c o (objs_of_state s1) ->
     lhosts_of_objs (objs_of_state s1) = lhosts_of_objs o ->
     wf sh -> vals_are c o sh ->
     deletes_first cs false = true ->
@@ -551,7 +616,7 @@ Section Step.
     vals_are c (objs_of_state s1) (fold_left apply_change cs sh).
   Proof.
     intros Hh Hok Hok1 K Hl W Hv Hdf Hu Hd.
-    destruct (hosts_part c Hcm s1 o Hh Hok Hok1 K) as [P1 P2].
+    destruct (hosts_part c s1 o Hh Hok Hok1 K) as [P1 P2].
     unfold vals_are. intros k a H.
     apply (vals_combine sh cs false
              (key_val (hosts_of_objs c o)) (key_val (smap_map RTS (lhosts_of_objs o)))
@@ -566,7 +631,7 @@ Section Step.
 
   Lemma vals_rebuild_ts s1 o sh cs :
     hosts s1 = hosts_of_objs c o -> lhosts s1 = lhosts_of_objs o -> objs_ok o -> objs_ok (objs_of_state s1) ->
-    k3_objs o (objs_of_state s1) ->
+    kc c o (objs_of_state s1) ->
     (tls_passthrough c = false -> hosts_of_objs c (objs_of_state s1) = hosts_of_objs c o) ->
     wf sh -> vals_are c o sh ->
     deletes_first cs false = true ->
@@ -575,7 +640,7 @@ Section Step.
     vals_are c (objs_of_state s1) (fold_left apply_change cs sh).
   Proof.
     intros Hh Hl Hok Hok1 K Hind W Hv Hdf Hu Hd.
-    destruct (listeners_part s1 o Hl Hok Hok1 K) as [L1 L2].
+    destruct (listeners_part c s1 o Hl Hok Hok1 K) as [L1 L2].
     pose proof (objs_rebuild_listeners s1) as Eo.
     assert (Eh : hosts (fst (fst (rebuild_listeners s1))) = hosts s1) by reflexivity.
     unfold rebuild_ts in Hu, Hd.
@@ -584,8 +649,8 @@ Section Step.
     destruct (tls_passthrough c) eqn:Hp.
     - assert (Hh2 : hosts s2 = hosts_of_objs c o) by (rewrite Eh; exact Hh).
       assert (Hok2 : objs_ok (objs_of_state s2)) by (rewrite Eo; exact Hok1).
-      assert (K2 : k3_objs o (objs_of_state s2)) by (rewrite Eo; exact K).
-      destruct (hosts_part c Hcm s2 o Hh2 Hok Hok2 K2) as [P1 P2]. rewrite Eo in P1, P2.
+      assert (K2 : kc c o (objs_of_state s2)) by (rewrite Eo; exact K).
+      destruct (hosts_part c s2 o Hh2 Hok Hok2 K2) as [P1 P2]. rewrite Eo in P1, P2.
       destruct (rebuild_hosts c s2) as [[s3 c2] p2] eqn:RH. cbn [fst snd] in *.
       apply (vals_combine sh cs false
                (key_val (hosts_of_objs c o)) (key_val (smap_map RTS (lhosts_of_objs o)))
@@ -605,12 +670,12 @@ Section Step.
 
   Lemma vals_rebuild_gc s1 o sh :
     hosts s1 = hosts_of_objs c o -> lhosts s1 = lhosts_of_objs o -> objs_ok o -> objs_ok (objs_of_state s1) ->
-    k3_objs o (objs_of_state s1) ->
+    kc c o (objs_of_state s1) ->
     wf sh -> vals_are c o sh ->
     vals_are c (objs_of_state s1) (fold_left apply_change (snd (fst (rebuild_gc c s1))) sh).
   Proof.
     intros Hh Hl Hok Hok1 K W Hv.
-    destruct (listeners_part s1 o Hl Hok Hok1 K) as [L1 L2].
+    destruct (listeners_part c s1 o Hl Hok Hok1 K) as [L1 L2].
     pose proof (objs_rebuild_listeners s1) as Eo.
     assert (Eh : hosts (fst (fst (rebuild_listeners s1))) = hosts s1) by reflexivity.
     pose proof (rebuild_gc_deletes_first c s1) as Hdf. unfold batch_of in Hdf.
@@ -618,8 +683,8 @@ Section Step.
     destruct (rebuild_listeners s1) as [[s2 c1] p1] eqn:RL. cbn [fst snd] in *.
     assert (Hh2 : hosts s2 = hosts_of_objs c o) by (rewrite Eh; exact Hh).
     assert (Hok2 : objs_ok (objs_of_state s2)) by (rewrite Eo; exact Hok1).
-    assert (K2 : k3_objs o (objs_of_state s2)) by (rewrite Eo; exact K).
-    destruct (hosts_part c Hcm s2 o Hh2 Hok Hok2 K2) as [P1 P2]. rewrite Eo in P1, P2.
+    assert (K2 : kc c o (objs_of_state s2)) by (rewrite Eo; exact K).
+    destruct (hosts_part c s2 o Hh2 Hok Hok2 K2) as [P1 P2]. rewrite Eo in P1, P2.
     destruct (rebuild_hosts c s2) as [[s3 c2] p2] eqn:RH. cbn [fst snd] in *.
     unfold vals_are. intros k a H.
     apply (vals_combine sh _ false
@@ -642,10 +707,9 @@ Proof. split; [apply upd_res_wve|exact (proj2 (has_wve b k u out kk))]. Qed.
 
 Section Step.
   Variables (c : cfg).
-  Hypothesis Hcm : cert_manager c = false.
 
   Lemma step_vals s e sh :
-    fn_inv c s -> objs_ok (objs_of_state s) -> k3_objs (objs_of_state s) (apply_event (objs_of_state s) e) ->
+    fn_inv c s -> objs_ok (objs_of_state s) -> kc c (objs_of_state s) (apply_event (objs_of_state s) e) ->
     wf sh -> vals_are c (objs_of_state s) sh ->
     vals_are c (apply_event (objs_of_state s) e) (fold_left apply_change (snd (fst (step c s e))) sh).
   Proof.
@@ -655,7 +719,7 @@ Section Step.
     - set (s1 := set_ings s _).
       assert (Eo : objs_of_state s1 = apply_event (objs_of_state s) (EIng i cls valid)) by reflexivity.
       rewrite <- Eo in *. pose proof (rebuild_hosts_deletes_first c s1) as Hdf. unfold batch_of in Hdf.
-      apply (vals_rebuild_hosts c Hcm s1 (objs_of_state s) sh); auto.
+      apply (vals_rebuild_hosts c s1 (objs_of_state s) sh); auto.
       + exact (wve_deletes_first _ _ _ _ Hdf).
       + intros k. exact (proj1 (wve_vals _ _ _ _ k)).
       + intros k. exact (proj2 (wve_vals _ _ _ _ k)).
@@ -663,14 +727,14 @@ Section Step.
       + set (s1 := set_ings s _).
         assert (Eo : objs_of_state s1 = apply_event (objs_of_state s) (EDelIng k)) by reflexivity.
         rewrite <- Eo in *. pose proof (rebuild_hosts_deletes_first c s1) as Hdf. unfold batch_of in Hdf.
-        apply (vals_rebuild_hosts c Hcm s1 (objs_of_state s) sh); auto.
+        apply (vals_rebuild_hosts c s1 (objs_of_state s) sh); auto.
       + cbn [fst snd fold_left]. apply mem_false_lookup in Hm.
         unfold vals_are, hosts_of_objs, lhosts_of_objs in *. cbn [apply_event o_ings o_vss o_vsrs o_tss o_gc objs_of_state] in *.
         rewrite (remove_absent k (ings s) Hm). exact Hv.
     - set (s1 := set_vss s _).
       assert (Eo : objs_of_state s1 = apply_event (objs_of_state s) (EVS v cls valid)) by reflexivity.
       rewrite <- Eo in *. pose proof (rebuild_hosts_deletes_first c s1) as Hdf. unfold batch_of in Hdf.
-      apply (vals_rebuild_hosts c Hcm s1 (objs_of_state s) sh); auto.
+      apply (vals_rebuild_hosts c s1 (objs_of_state s) sh); auto.
       + exact (wve_deletes_first _ _ _ _ Hdf).
       + intros k. exact (proj1 (wve_vals _ _ _ _ k)).
       + intros k. exact (proj2 (wve_vals _ _ _ _ k)).
@@ -678,7 +742,7 @@ Section Step.
       + set (s1 := set_vss s _).
         assert (Eo : objs_of_state s1 = apply_event (objs_of_state s) (EDelVS k)) by reflexivity.
         rewrite <- Eo in *. pose proof (rebuild_hosts_deletes_first c s1) as Hdf. unfold batch_of in Hdf.
-        apply (vals_rebuild_hosts c Hcm s1 (objs_of_state s) sh); auto.
+        apply (vals_rebuild_hosts c s1 (objs_of_state s) sh); auto.
       + cbn [fst snd fold_left]. apply mem_false_lookup in Hm.
         unfold vals_are, hosts_of_objs, lhosts_of_objs in *. cbn [apply_event o_ings o_vss o_vsrs o_tss o_gc objs_of_state] in *.
         rewrite (remove_absent k (vss s) Hm). exact Hv.
@@ -687,19 +751,19 @@ Section Step.
       rewrite <- Eo in *. pose proof (rebuild_hosts_deletes_first c s1) as Hdf. unfold batch_of in Hdf.
       destruct (rebuild_hosts c s1) as [[s2 cs] ps] eqn:RH. cbn [fst snd] in *.
       replace cs with (snd (fst (rebuild_hosts c s1))) by (rewrite RH; reflexivity).
-      apply (vals_rebuild_hosts c Hcm s1 (objs_of_state s) sh); auto. rewrite RH. exact Hdf.
+      apply (vals_rebuild_hosts c s1 (objs_of_state s) sh); auto. rewrite RH. exact Hdf.
     - destruct (mem k (vsrs s)) eqn:Hm.
       + set (s1 := set_vsrs s _).
         assert (Eo : objs_of_state s1 = apply_event (objs_of_state s) (EDelVSR k)) by reflexivity.
         rewrite <- Eo in *. pose proof (rebuild_hosts_deletes_first c s1) as Hdf. unfold batch_of in Hdf.
-        apply (vals_rebuild_hosts c Hcm s1 (objs_of_state s) sh); auto.
+        apply (vals_rebuild_hosts c s1 (objs_of_state s) sh); auto.
       + cbn [fst snd fold_left]. apply mem_false_lookup in Hm.
         unfold vals_are, hosts_of_objs, lhosts_of_objs in *. cbn [apply_event o_ings o_vss o_vsrs o_tss o_gc objs_of_state] in *.
         rewrite (remove_absent k (vsrs s) Hm). exact Hv.
     - set (s1 := set_tss s _).
       assert (Eo : objs_of_state s1 = apply_event (objs_of_state s) (ETS t cls valid)) by reflexivity.
       rewrite <- Eo in *. pose proof (rebuild_ts_deletes_first c s1) as Hdf. unfold batch_of in Hdf.
-      apply (vals_rebuild_ts c Hcm s1 (objs_of_state s) sh); auto.
+      apply (vals_rebuild_ts c s1 (objs_of_state s) sh); auto.
       + intros Hp. apply hosts_indep_tss; auto.
       + exact (wve_deletes_first _ _ _ _ Hdf).
       + intros k. exact (proj1 (wve_vals _ _ _ _ k)).
@@ -708,17 +772,17 @@ Section Step.
       + set (s1 := set_tss s _).
         assert (Eo : objs_of_state s1 = apply_event (objs_of_state s) (EDelTS k)) by reflexivity.
         rewrite <- Eo in *. pose proof (rebuild_ts_deletes_first c s1) as Hdf. unfold batch_of in Hdf.
-        apply (vals_rebuild_ts c Hcm s1 (objs_of_state s) sh); auto.
+        apply (vals_rebuild_ts c s1 (objs_of_state s) sh); auto.
         intros Hp. apply hosts_indep_tss; auto.
       + cbn [fst snd fold_left]. apply mem_false_lookup in Hm.
         unfold vals_are, hosts_of_objs, lhosts_of_objs in *. cbn [apply_event o_ings o_vss o_vsrs o_tss o_gc objs_of_state] in *.
         rewrite (remove_absent k (tss s) Hm). exact Hv.
     - set (s1 := set_gc s _).
       assert (Eo : objs_of_state s1 = apply_event (objs_of_state s) (EGC ls x)) by reflexivity.
-      rewrite <- Eo in *. apply (vals_rebuild_gc c Hcm s1 (objs_of_state s) sh); auto.
+      rewrite <- Eo in *. apply (vals_rebuild_gc c s1 (objs_of_state s) sh); auto.
     - set (s1 := set_gc s _).
       assert (Eo : objs_of_state s1 = apply_event (objs_of_state s) EDelGC) by reflexivity.
-      rewrite <- Eo in *. apply (vals_rebuild_gc c Hcm s1 (objs_of_state s) sh); auto.
+      rewrite <- Eo in *. apply (vals_rebuild_gc c s1 (objs_of_state s) sh); auto.
   Qed.
 End Step.
 
@@ -770,13 +834,29 @@ Proof.
   - intros k1 k2 a b Ha Hb. apply K4; [exact (A4 _ _ Ha)|exact (B4 _ _ Hb)].
 Qed.
 
-Lemma shadow_run_vals c (Hcm : cert_manager c = false) E : k3_hist E -> forall es s sh,
+(* the cert-manager side of the hypothesis on the history: stored routes have UIDs; challenge Ingresses that are
+   converted into routes with the same namespace, name and generation are converted into the same route *)
+Definition cm_hist (c : cfg) (E : list event) : Prop :=
+  cert_manager c = false \/
+  ((forall r, In (EVSR r true true) E -> m_uid (r_meta r) <> "") /\
+   (forall a b, In (EIng a true true) E -> In (EIng b true true) E ->
+      meta_eq (r_meta (challenge_vsr a)) (r_meta (challenge_vsr b)) = true -> challenge_vsr a = challenge_vsr b)).
+
+Lemma allowed_cm c E o1 o2 : cm_hist c E -> allowed E o1 -> allowed E o2 -> cm_objs c o1 o2.
+Proof.
+  intros [H|(U & CH)] (A1 & _ & A3 & _) (B1 & _ & B3 & _); [left; exact H|right]. repeat split.
+  - intros k r Hin. exact (U _ (A3 _ _ Hin)).
+  - intros k r Hin. exact (U _ (B3 _ _ Hin)).
+  - intros k1 k2 a b Ha Hb. exact (CH a b (A1 _ _ Ha) (B1 _ _ Hb)).
+Qed.
+
+Lemma shadow_run_vals c E : cm_hist c E -> k3_hist E -> forall es s sh,
   (forall e, In e es -> In e E) -> allowed E (objs_of_state s) ->
   fn_inv c s -> objs_ok (objs_of_state s) ->
   wf sh -> vals_are c (objs_of_state s) sh ->
   vals_are c (objs_of_state (fold_left (step_state c) es s)) (shadow_run c s sh es).
 Proof.
-  intros HK. induction es as [|e r IH]; intros s sh Hsub Hal Hf Hok W Hv; cbn [fold_left shadow_run]; [exact Hv|].
+  intros HC HK. induction es as [|e r IH]; intros s sh Hsub Hal Hf Hok W Hv; cbn [fold_left shadow_run]; [exact Hv|].
   assert (Hal' : allowed E (apply_event (objs_of_state s) e)) by (apply allowed_event; [exact Hal|apply Hsub; left; reflexivity]).
   apply IH.
   - intros e0 He0. apply Hsub. right; exact He0.
@@ -784,7 +864,7 @@ Proof.
   - apply fn_inv_step. exact Hf.
   - rewrite step_objs. apply objs_ok_event. exact Hok.
   - apply wf_fold_apply. exact W.
-  - rewrite step_objs. apply step_vals; auto. exact (allowed_k3 E _ _ HK Hal Hal').
+  - rewrite step_objs. apply step_vals; auto. exact (conj (allowed_k3 E _ _ HK Hal Hal') (allowed_cm c E _ _ HC Hal Hal')).
 Qed.
 
 
@@ -817,16 +897,16 @@ Proof.
 Qed.
 
 Theorem applied_configuration_is_current c es :
-  cert_manager c = false -> Forall ev_role es -> k3_hist es ->
+  cm_hist c es -> Forall ev_role es -> k3_hist es ->
   forall k, lookup k (shadow_run c init [] es) = option_map attrs (lookup k (get_resources (run c es))).
 Proof.
-  intros Hcm He HK k.
+  intros HC He HK k.
   assert (Hok0 : objs_ok (objs_of_state init)).
   { unfold objs_ok; cbn. repeat split; try constructor; intros ? ? []. }
   assert (Hr0 : roles_ok (objs_of_state init)) by (intros k0 t []).
   assert (Hal0 : allowed es (objs_of_state init)) by (repeat split; intros ? ? []).
   assert (Hv0 : vals_are c (objs_of_state init) []) by (intros k0 a H; discriminate H).
-  pose proof (shadow_run_vals c Hcm es HK es init [] (fun e H => H) Hal0 (fn_inv_init c) Hok0 wf_nil Hv0) as Hv.
+  pose proof (shadow_run_vals c es HC HK es init [] (fun e H => H) Hal0 (fn_inv_init c) Hok0 wf_nil Hv0) as Hv.
   fold (run c es) in Hv.
   pose proof (applied_keys_are_active c es He k) as Hkeys.
   assert (Hok : objs_ok (objs_of_state (run c es))) by (rewrite run_objs; apply objs_after_ok).
